@@ -117,12 +117,12 @@ impl Prop for C06 {
     }
     fn build(&self, ch: &mut Chooser, cx: &mut CaseCtx) -> C06Case {
         let thorough = cx.env.tier == Tier::Thorough;
-        let o = WsGenOpts { fail_chance: 5, max_patches: if thorough { 10 } else { 6 }, max_files: 8, strict_reject_dirs: true, alt_name_chance: 1, ..Default::default() };
+        let o = WsGenOpts { fail_chance: 5, max_patches: if thorough { 10 } else { 6 }, max_files: 8, strict_reject_dirs: true, alt_name_chance: 1, second_failure: true, ..Default::default() };
         let ws = gen_ws(ch, cx, &o);
         let mut opts = gen_opts(ch, true);
         opts.threads = *ch.pick(&[2usize, 2, 3, 4, 8, 16]);
         opts.goal = if ch.chance(3, 4) { Goal::All } else { gen_goal(ch, &ws) };
-        let mut schedules = vec![("failing-last".to_string(), vec![]), ("failing-first".to_string(), vec![])];
+        let mut schedules = vec![("failing-last".to_string(), vec![]), ("failing-first".to_string(), vec![]), ("later-failure-reported-last".to_string(), vec![])];
         let nrand = if thorough { 8 } else { 3 };
         for _ in 0..nrand {
             let pr: Vec<u32> = (0..24).map(|_| ch.below(1 << 16) as u32).collect();
@@ -186,6 +186,43 @@ impl Prop for C06 {
         for (kind, prio) in &case.schedules {
             let queues: Vec<Vec<String>> = apply_q.values().cloned().collect();
             let mut script: Vec<String> = match kind.as_str() {
+                "later-failure-reported-last" => {
+                    // two failing patches j1 < j2 on different workers: j2's application starts first (so it
+                    // passes the 'am I past the earliest failure' test), j1 fails and reports, then j2 reports
+                    let Some(j1) = ws.fail_at.filter(|_| exp.stops_on_failure) else { continue };
+                    let j2 = ws.metas.iter().enumerate().skip(j1 + 1).find(|(_, m)| m.ops.iter().any(|o| !o.failing_hunks.is_empty())).map(|(i, _)| i);
+                    let Some(j2) = j2 else { continue };
+                    let failing_names = |j: usize| -> Vec<String> { ws.metas[j].ops.iter().filter(|o| !o.failing_hunks.is_empty()).flat_map(|o| vec![format!("A {} {}", j, o.old_path), format!("A {} {}", j, o.new_path)]).collect() };
+                    let (n1, n2) = (failing_names(j1), failing_names(j2));
+                    let q1 = queues.iter().position(|q| q.iter().any(|k| n1.contains(k)));
+                    let q2 = queues.iter().position(|q| q.iter().any(|k| n2.contains(k)));
+                    let (Some(q1), Some(q2)) = (q1, q2) else { continue };
+                    if q1 == q2 {
+                        continue;
+                    }
+                    let e1 = queues[q1].iter().find(|k| n1.contains(k)).unwrap().clone();
+                    let e2 = queues[q2].iter().find(|k| n2.contains(k)).unwrap().clone();
+                    let mut v = Vec::new();
+                    // everything the two workers do before those events, then the crossing
+                    for k in &queues[q2] {
+                        if k == &e2 {
+                            break;
+                        }
+                        v.push(k.clone());
+                    }
+                    for k in &queues[q1] {
+                        if k == &e1 {
+                            break;
+                        }
+                        v.push(k.clone());
+                    }
+                    v.push(e2.clone());
+                    v.push(e1.clone());
+                    v.push(e1.replacen("A", "a", 1));
+                    v.push(e2.replacen("A", "a", 1));
+                    cx.label("two-failing-patches-on-different-workers");
+                    v
+                }
                 "failing-last" | "failing-first" => {
                     let Some(pref) = &failing_key_prefix else { continue };
                     let (mut fail_q, mut rest): (Vec<Vec<String>>, Vec<Vec<String>>) = queues.iter().cloned().partition(|q| q.iter().any(|k| k.starts_with(pref.as_str())));
